@@ -102,6 +102,17 @@ class Ctx:
                 raise AnalysisError(msg)
             self.floor_failures.append(msg)
 
+    def require(self, rule: str, what: str, found: int, minimum: int, *, function: str, construct: str, message: str,
+                file: str = "", node=None) -> bool:
+        """Like a floor, for constructs whose *absence is the defect* (the store that performs the operation, the emission of a
+        token kind, the call that pads): fewer than `minimum` is a violation of the property, not an analysis problem."""
+        self.counters[f"floor:{what}"] = found
+        if found < minimum:
+            self.violation(rule, what, function=function, construct=construct, message=message, file=file, node=node)
+            return False
+        self.ok(rule, what, f"{found} site(s)")
+        return True
+
     def finish(self) -> None:
         if self.floor_failures and not self.findings:
             raise AnalysisError(self.floor_failures[0])
@@ -200,7 +211,7 @@ def write_evidence(ctx: Ctx, wall_s: float, seed: int, n_new: int, n_known: int)
                          "hypotheses listed under assumptions"],
         "exhaustive": False,
     }
-    cov.update(ctx.extra)
+    cov.update({k: v for k, v in ctx.extra.items() if not str(k).startswith("_")})
     ev = {
         "property_id": ctx.prop,
         "tier": ctx.tier if ctx.tier in ("quick", "thorough") else "quick",
